@@ -19,6 +19,11 @@ case $crate in
 esac
 # the sqlite demo of C15a lives in sqlite/tests
 if grep -q deadpool_sqlite $demo 2>/dev/null; then dpkg=deadpool-sqlite; ddir=sqlite/tests; dfeat=""; else dpkg=$pkg; dfeat=$feat; fi
+# where the sub-agent had its demonstration (it may live in another crate than the change)
+if [ -f /verif/seeded/$id/demo_path.txt ]; then
+  dp=$(cat /verif/seeded/$id/demo_path.txt); top=${dp%%/*}
+  if [ "$top" != tests ] && [ "$top" != "$crate" ]; then ddir=$top/tests; dpkg=deadpool-$top; dfeat=""; fi
+fi
 mkdir -p $ddir; cp $demo $ddir/seeded_demo.rs
 log=/verif/seeded/$id/verify.log; : > $log
 echo "== without the change: demonstration" >> $log
